@@ -301,9 +301,12 @@ func ruleText() string {
 		"stale / equal / newer all occur, event-driven on/off, future threshold in {0,2}, wildcard deletes, element-form and prefix-only paths, " +
 		"Sync/Connect/ConnectError/Reset/UpdateMetadata/UpdateSize under a monotone clock); " +
 		"latency histories of 4..25 Compute/UpdateReset/UpdateLast calls (windows 2p/4p for period p in {10,1000}, precision in {unset,1ns,1us}, " +
-		"latencies incl. 0, negative, multiples of the precision +-1). distinct = distinct inputs; " +
+		"latencies incl. 0, negative, multiples of the precision +-1); cache-level latency histories (cache built with latency windows 20/40 ns, " +
+		"period 10 ns, one synced target, per period 1..4 single updates: accepted ones with latencies 1..8 ns mixed with stale replays, " +
+		"suppressed / future-rejected updates far ahead of the clock and schema collisions whose latencies lie far outside that range, " +
+		"then UpdateMetadata (sometimes off the period) or Reset+Sync). distinct = distinct inputs; " +
 		"non-trivial = some call was rejected stale/future or suppressed, a delete was announced, a non-zero latest timestamp was exported, " +
-		"or (latency) some stat was written"
+		"or (latency) some stat was written, or (cache-level latency) a max was exported after some update had been rejected or suppressed"
 }
 
 func generate(e *emitter, o vh.Opts) {
@@ -327,5 +330,12 @@ func generate(e *emitter, o vh.Opts) {
 	}
 	for i := 0; i < nlat; i++ {
 		e.add(latCase(r.Fork()))
+	}
+	nclat := 600
+	if o.Thorough() {
+		nclat = 12000
+	}
+	for i := 0; i < nclat; i++ {
+		e.add(clatCase(r.Fork()))
 	}
 }
